@@ -358,6 +358,24 @@ static void one_execution(Trace& T, Rng& g, int N, int steps, bool is2d)
 			T.emit({{"e", set ? "SetPf" : "Mul"}, {"o", o + 1}, {"sg", sg}, {"ex", e}});
 			continue;
 		}
+		// a request outside the domain (beyond the 1% tolerance) stops the program whatever the object went through before: asked of the
+		// object as it is now, in a child process
+		if(g.coin(0.02))
+		{
+			bool upper = g.coin();
+			double h   = upper ? t.x[N - 1] - t.x[N - 2] : t.x[1] - t.x[0];
+			double xo  = upper ? t.x[N - 1] + h * g.uni(0.011, 0.5) : t.x[0] - h * g.uni(0.011, 0.5);
+			if(std::fabs(xo) > 1e-3 * 0 && ((upper && !(xo > t.x[N - 1] + 0.0105 * h)) || (!upper && !(xo < t.x[0] - 0.0105 * h))))
+				continue;	// (rounding ate the margin)
+			int what   = (int)g.range(0, 2);
+			ChildResult rr = run_child([&]() {
+				double v = what == 0 ? objs[o].I.Interpolate(xo) : (what == 1 ? objs[o].I.Derivative(xo, 1) : (double)objs[o].I.Locate(xo));
+				return std::to_string(v);
+			}, 10);
+			std::string oc = outcome(rr);
+			T.emit({{"e", "Outside"}, {"o", o + 1}, {"upper", upper}, {"what", what}, {"ret", rr.returned}, {"diag", oc == "exit_diag"}, {"mem", oc == "signal" || oc == "memerror" || oc == "timeout"}});
+			continue;
+		}
 		// next position: far jump / correlated steps in both directions / knots / ends / zones
 		int p	 = pos[o];
 		double m = g.u01();
